@@ -931,7 +931,7 @@ func checkC10(c *Ctx) {
 		"(C10.nilret) no function returning (runtime.Element, error) - built-ins, library functions, GetProperty/ExecMethod/Construct, evaluator functions - returns (nil, nil); " +
 		"(C10.nilrecv) results of VM.getCurrentScope()/getCurrentCallFrame() are used only under a nil test and getCurrentCallFrame guards the empty stack; " +
 		"(C10.exit) no os.Exit / log.Fatal / panic is reachable from Interpreter.Execute or ExecVarInputText except the parser's error-typed panics recovered by Parser.Parse (VTA call graph). " +
-		"C10.index sites are first tried with the own symbolic bounds prover (bounds.go: dominating comparisons, monotone loop phis, len equalities, helper summaries) and only then looked up in the reviewed table (keys name the function and the expression with locals replaced by their types; a moved expression may claim a stale entry once). C10.exit accepts panics only below a function that defers a recover handler storing the recovered error (must-pass-through on the call graph). (C10.dictsync = C12.sync, C10.tmpl = C14.tmpl) invariants the reviewed index sites rest on. NOT decided: stack exhaustion by deep recursion, memory exhaustion, results of float->int conversions, stdlib/http (does not compile at the pinned commit)."
+		"C10.index sites are first tried with the own symbolic bounds prover (bounds.go: dominating comparisons, monotone loop phis, len equalities, helper summaries) and only then looked up in the reviewed table (keys name the function and the expression with locals replaced by their types; a moved expression may claim a stale entry once). C10.exit accepts panics only below a function that defers a recover handler storing the recovered error (must-pass-through on the call graph). (C10.dictsync = C12.sync, C10.tmpl = C14.tmpl) invariants the reviewed index sites rest on. (C10.nilfield) nil-able pointer fields are dereferenced only behind a nil test; C10.nilret also rejects returning the possibly-empty return slot / receiver slot as a value. NOT decided: stack exhaustion by deep recursion, memory exhaustion, results of float->int conversions, stdlib/http (does not compile at the pinned commit)."
 	R.Assumptions = []string{"the compiler's prove pass is sound (a bounds check it removes cannot fail)", "tables/bce.json and tables/assert_allow.json were reviewed entry by entry (one reason each)", "VTA call graph over-approximates dynamic calls through FuncExecutor values"}
 	u := c.Core()
 	u.buildSSA()
